@@ -1750,10 +1750,10 @@ func (c *Ctx) r0322(pk *packages.Package, fd *ast.FuncDecl) {
 // R03.23: the end tag of a colgroup stays in front of what would otherwise join it.
 func (c *Ctx) r0323(pk *packages.Package, fd *ast.FuncDecl) {
 	const rule = "R03.23"
-	c.R.Rule(rule, "HTML §13.2.6.4.12 `in column group`: while a colgroup is open a col start tag is inserted into it, and a colgroup start tag closes it only to open the next. `<colgroup></colgroup><col>` are two column groups (the second is implied by the col); without the end tag the col joins the first. Where html.(*Minifier).Minify decides to keep an attribute-less colgroup end tag from the token that follows (an assignment of a comparison of that token's Hash with Colgroup), the value is evaluated with the hash constants: it holds for a following colgroup start tag and for a following col start tag")
+	c.R.Rule(rule, "HTML §13.2.6.4.12 `in column group`: while a colgroup is open a col start tag is inserted into it, and a colgroup start tag closes it only to open the next. `<colgroup></colgroup><col>` are two column groups (the second is implied by the col); without the end tag the col joins the first. Where html.(*Minifier).Minify decides to keep an attribute-less colgroup end tag from the token that follows (an assignment of a comparison of that token's Hash with Colgroup), the value is evaluated with the hash constants: it holds for a following colgroup start tag, for a following col start tag and for a following template start tag (the `in column group` mode processes a template with the rules of `in head`, i.e. inserts it into the open colgroup, while after the end tag it is a child of the table)")
 	info := pk.TypesInfo
 	val := map[string]int64{}
-	for _, p := range []string{"Col", "Colgroup", "Tr"} {
+	for _, p := range []string{"Col", "Colgroup", "Template", "Tr"} {
 		k, ok := pk.Types.Scope().Lookup(p).(*types.Const)
 		if !ok {
 			c.R.Unres(rule, "html hash constant "+p, c.pos(fd), "constant not found")
@@ -1799,7 +1799,7 @@ func (c *Ctx) r0323(pk *packages.Package, fd *ast.FuncDecl) {
 		}
 		n++
 		var bad []string
-		for _, el := range []string{"Colgroup", "Col"} {
+		for _, el := range []string{"Colgroup", "Col", "Template"} {
 			v, ok := evalIntExpr(info, rhs, map[string]int64{next + ".Hash": val[el], next + ".TokenType": startTag})
 			if !ok {
 				c.R.Unres(rule, fmt.Sprintf("html.Minifier.Minify/colgroup end tag kept#%d", n), c.pos(as), "the value could not be evaluated for a following "+strings.ToLower(el))
@@ -1810,7 +1810,7 @@ func (c *Ctx) r0323(pk *packages.Package, fd *ast.FuncDecl) {
 			}
 		}
 		c.R.Check(len(bad) == 0, rule, fmt.Sprintf("html.Minifier.Minify/colgroup end tag kept#%d in front of colgroup and col", n), c.pos(as), "evaluated for both start tags",
-			"the end tag of a colgroup is dropped in front of "+strings.Join(bad, ", ")+": `<table><colgroup></colgroup><col></table>` becomes `<table><colgroup><col></table>`, in which the col is a child of the first column group")
+			"the end tag of a colgroup is dropped in front of "+strings.Join(bad, ", ")+": `<table><colgroup></colgroup><col></table>` becomes `<table><colgroup><col></table>`, in which the col is a child of the first column group (and `<table><colgroup></colgroup><template>` puts the template into the colgroup instead of the table)")
 		return true
 	})
 	c.R.Floor(rule, "verdicts on a colgroup end tag", n, 1)
